@@ -94,7 +94,7 @@ func checkC11(w *Workload, emit func(n int, region string)) (*Outcome, int) {
 var c11Fixtures = []string{"tiny", "flat24", "nest"}
 
 func TestC11(t *testing.T) {
-	cfg := wlCfg{fixtures: fixturesFromEnv(c11Fixtures), maxRecs: envInt("VERIF_MAXRECS", 16), gen: vt.DefaultGen}
+	cfg := wlCfg{fixtures: fixturesFromEnv(c11Fixtures), maxRecs: envInt("VERIF_MAXRECS", 16), gen: vt.DefaultGen, noPatterns: true}
 	cfg.gen.MaxList = 3
 	cfg.gen.LongStr = 60
 	rapid.Check(t, func(t *rapid.T) {
